@@ -7,6 +7,7 @@ import (
 	"testing"
 
 	"verif/harness"
+	"verif/internal/gen"
 	m "verif/internal/model"
 	"verif/internal/rt"
 	"verif/internal/value"
@@ -82,6 +83,22 @@ func TestProbes(t *testing.T) {
 		o2 := do(c)
 		t.Logf("inner probe: first err=%q clienterr=%v status=%d; second clienterr=%v panic=%q", o.Err, o.ClientErr, o.Response.Status, o2.ClientErr, firstLines(o2.Panic, 2))
 		return o2.ClientErr == nil && o2.Panic == "" && o2.Err == "", "response with goa-view: bogus and no body: client error is nil, result " + o2.Result.Canon()
+	})
+	rt.Probe("C08-sibling-nested-result-types-share-projection", func() (bool, string) {
+		sess2, h2 := rt.BuildOne(t, "c08pm", gen.ViewMatrix())
+		defer sess2.Close()
+		defer h2.Close()
+		leaf := func(n int64) value.V {
+			return value.Object(f("a", value.Int(n)), f("b", value.Str("b")), f("c", value.Str("c")))
+		}
+		res := value.Object(f("title", value.Str("t")), f("l1", leaf(1)), f("l2", leaf(2)), f("l3", leaf(3)))
+		o, err := h2.Do(&harness.Case{Op: "call", Svc: "viewmatrix", Method: "get", Stub: harness.StubSpec{HasResult: true, Result: res, View: "default"}})
+		if err != nil || o.Response == nil || o.Response.Status != 200 {
+			t.Logf("view matrix probe: %v %+v", err, o)
+			return false, "inconclusive"
+		}
+		body := strings.TrimSpace(string(o.Response.Body))
+		return strings.Contains(body, `"l2":{"a":2,"b"`), "Tree default view = {l1 (default), l2 rendered with view tiny = {a}, l3 extended}: wire body " + body
 	})
 	rt.Probe("C08-required-object-absent-client-panic", func() (bool, string) {
 		res := value.Object(f("c", value.Int(1)), f("size", value.Object(f("b", value.Int(2)))))
